@@ -151,7 +151,7 @@ func (m *Machine) RunPath(fn *ssa.Function, prefix []Decision, inits []*ssa.Func
 	res = m.res
 	m.sol.BeginPath()
 	defer func() {
-		m.sol.EndPath()
+		defer m.sol.EndPath()
 		res.Forks = m.forks
 		res.Fns = m.fns
 		res.NMerged = m.nMerged
